@@ -33,6 +33,8 @@ pub struct RunScript {
   pub hash_seed: u64,
   pub reset: bool,
   pub fault_free: bool,
+  /// every `alloc_period`-th allocation made by library code is a yield point (0 = off)
+  pub alloc_period: u32,
 }
 
 impl Op {
@@ -100,6 +102,9 @@ impl RunScript {
   pub fn to_text(&self, trace: Option<&[u8]>) -> String {
     let mut s = String::new();
     s.push_str(&format!("run threads={} policy={} sched={} hash={} reset={}", self.threads.len(), self.policy.name(), self.sched_seed, self.hash_seed, if self.reset { 1 } else { 0 }));
+    if self.alloc_period > 0 {
+      s.push_str(&format!(" alloc={}", self.alloc_period));
+    }
     if let Some(t) = trace {
       s.push_str(&format!(" trace={}", trace_to_text(t)));
     } else if let Policy::Fixed(t) = &self.policy {
@@ -137,6 +142,7 @@ pub fn parse_runs(text: &str) -> Result<Vec<RunScript>, String> {
       let mut hash = 0u64;
       let mut reset = false;
       let mut trace: Option<Vec<u8>> = None;
+      let mut alloc_period = 0u32;
       for kv in &tokens[1..] {
         let (k, v) = kv.split_once('=').ok_or(err(format!("bad run attribute {}", kv)))?;
         match k {
@@ -154,6 +160,7 @@ pub fn parse_runs(text: &str) -> Result<Vec<RunScript>, String> {
           "sched" => sched = v.parse().map_err(|_| err("sched".to_string()))?,
           "hash" => hash = v.parse().map_err(|_| err("hash".to_string()))?,
           "reset" => reset = v == "1",
+          "alloc" => alloc_period = v.parse().map_err(|_| err("alloc".to_string()))?,
           "trace" => {
             let mut t = Vec::new();
             for x in v.split('.') {
@@ -172,7 +179,7 @@ pub fn parse_runs(text: &str) -> Result<Vec<RunScript>, String> {
       if let Some(t) = trace {
         policy = Policy::Fixed(t);
       }
-      cur = Some(RunScript { threads: vec![Vec::new(); n], policy, sched_seed: sched, hash_seed: hash, reset, fault_free: false });
+      cur = Some(RunScript { threads: vec![Vec::new(); n], policy, sched_seed: sched, hash_seed: hash, reset, fault_free: false, alloc_period });
     } else if tokens[0] == "end" {
       match cur.take() {
         Some(r) => runs.push(r),
